@@ -27,10 +27,16 @@ import (
 	"strconv"
 	"strings"
 	"sync"
+	"sync/atomic"
 	"time"
 
 	"gitee.com/xuesongtao/protoc-go-valid/valid"
 )
+
+// totalKey is a defined string type used as a map key type; totalMapSeq alternates the two string-keyed map forms.
+type totalKey string
+
+var totalMapSeq int64
 
 func init() {
 	register("total-calls", totalCallsCmd)
@@ -236,6 +242,12 @@ func totalBuild(chain []string, rule string) (reflect.Value, error) {
 		a.Index(0).Set(in)
 		return a, nil
 	case "mapS":
+		// "map with a string-kinded key": every other one is keyed by a DEFINED string type (type totalKey string)
+		if atomic.AddInt64(&totalMapSeq, 1)%2 == 0 {
+			m := reflect.MakeMap(reflect.MapOf(reflect.TypeOf(totalKey("")), it))
+			m.SetMapIndex(reflect.ValueOf(totalKey("k")), in)
+			return m, nil
+		}
 		m := reflect.MakeMap(reflect.MapOf(reflect.TypeOf(""), it))
 		m.SetMapIndex(reflect.ValueOf("k"), in)
 		return m, nil
@@ -252,6 +264,15 @@ func totalBuild(chain []string, rule string) (reflect.Value, error) {
 		}
 		return v, nil
 	case "field":
+		if strings.HasPrefix(rule, "either=") || strings.HasPrefix(rule, "botheq=") {
+			// a group needs two members to be evaluated at all: two fields of the same type holding the same value
+			// (whatever the type - slices, maps, funcs, structs with such fields are not comparable with ==)
+			t := reflect.StructOf([]reflect.StructField{{Name: "F", Type: it, Tag: totalTag(rule)}, {Name: "G", Type: it, Tag: totalTag(rule)}})
+			v := reflect.New(t).Elem()
+			v.Field(0).Set(in)
+			v.Field(1).Set(in)
+			return v, nil
+		}
 		t := reflect.StructOf([]reflect.StructField{{Name: "F", Type: it, Tag: totalTag(rule)}})
 		v := reflect.New(t).Elem()
 		v.Field(0).Set(in)
